@@ -5,12 +5,12 @@ META = {
     "exhaustive_when_all_discharged": False,
     "decided": [
         "16.a Default strategy: |seconds to the governing Jie| = 259200*years + 21600*months + 720*days + 30*hours + minutes/2 with months < 12, days < 30, hours < 24, minutes even < 60 (3 days = 1 year, 1 day = 4 months, 1 hour = 5 days, 1 minute = 2 hours, 1 second = 2 minutes); at most 10 whole years for a Jie within 32 days",
-        "16.b China95 and LunarSect2 analogues on whole minutes; LunarSect1: the distance counted in whole days and double hours (branch index (h+1) div 2): years = T div 36, months = (T div 3) mod 12, days = 10 (T mod 3) for T = 12 * days + double hours, no clock part (hours 0..22)",
+        "16.b China95 and LunarSect2 analogues on whole minutes; LunarSect1: the distance counted in whole days and double hours (branch index (h+1) div 2): years = T div 36, months = (T div 3) mod 12, days = 10 (T mod 3) for T = 12 * days + double hours, no clock part (every hour; 23:xx counts as index 11 of the day that ends — the strategy's own convention, part of its definition)",
         "16.d luck runs forward exactly for Yang-year men and Yin-year women; the Jie handed to the strategy is the next Jie after the birth instant if forward, the latest Jie at or before it if backward (the birth instant's term taken as given)",
         "16.e fortunes: the first decade fortune has index 0, the child limit's own decade -1, the first yearly fortune 0; decade fortune i has the month pillar stepped by +-(i+1) (sign = direction of luck), start age = (year the limit ends - birth year + 1) + 10 i, end age 9 later, first year = year the limit ends + 10 i, first yearly fortune index 10 i; yearly fortune i has age (year the limit ends - birth year + 1) + i, the hour pillar stepped by +-age, year = year the limit ends + i; next(n) adds n to the index and keeps the child limit",
         "16.c the end instant is built from birth + (years, months, days, hours, minutes, seconds): clock carries exact, day overflow carried through the month lengths (loop bound proved), start month = (birth year + years, birth month) stepped by months, every later step by one month; the day handed to the constructor lies in 1..month length",
     ],
-    "outside": ["LunarSect1 when either instant falls in hour 23 (the strategy files 23:00 under index 11 by a rule of its own)", "which term an instant belongs to (C06, taken as given by 16.d)", "the process-wide provider switch",
+    "outside": ["which term an instant belongs to (C06, taken as given by 16.d)", "the process-wide provider switch",
                 "months with missing days: in October 1582 the day number handed on is a position, not a date (birth instants in Sep/Oct 1582 can panic; outside the decided clauses)"],
     "assumptions": [
         "ENV-J: the difference SolarTime::subtract(term instant, birth) is an arbitrary value within +-32 days (the governing Jie); subtract itself is C12 12.b",
